@@ -96,69 +96,121 @@ def w2(prog):
 
 
 def z1elf(prog):
+    """per-machine ELF constant names round-trip: the WRITER side is obtained by interpreting the code itself - elfsym_stt_dom (machine)
+    / elfsym_stb_dom (machine) / elfsym_stv_dom () are called for every machine the vocabulary registers constants for (and machine 0),
+    the object they hand out has its show () interpreted on every code of the field (0..15; visibility 0..7) with a modelled stream -
+    and joined with the READER side, the vocabulary registrations: a name that show () prints for (machine, code) must be a word that
+    denotes exactly that code in that machine's domain."""
+    import re
+    from cxxobj import CxxEvaluator, Obj, OStream, Ptr, Buf, OutOfBounds
+    from absint import Thrown
     inst, findings = [], []
     R, nreg = reader_table(prog)
-    # machine -> class, from elfsym_stX_dom (int machine)
-    for fam in ("stt", "stb"):
-        sel = prog.func_opt("elfsym_%s_dom" % fam)
-        if sel is None:
-            raise Broken("anchor elfsym_%s_dom vanished" % fam)
-        sw = [x for x in walk(sel["body"]) if x.get("k") == "switch"]
-        classes = {}
-        if sw:
-            for labels, stmts in switch_groups(sw[0]):
-                cl = [v["t"] for s in stmts for y in walk(s) if y.get("k") == "decl" for v in y["vars"] if v.get("static")]
-                for l in labels:
-                    if l != "default" and cl:
-                        classes[intval(l)] = cl[0]
-        base = [v["t"] for y in walk_nolambda(sel["body"]) if y.get("k") == "decl" for v in y["vars"] if v.get("static") and v["t"] not in classes.values()]
-        if len(base) != 1:
-            raise Broken("generic %s domain object not found" % fam)
-        classes[0] = base[0]     # EM_NONE
-        for machine, cls in sorted(classes.items()):
-            shows = [g for g in prog.funcs.values() if g.get("cls") == cls and g["n"] == "show"]
-            if len(shows) != 1:
-                raise Broken("%s::show not found" % cls)
-            sws = [x for x in walk(shows[0]["body"]) if x.get("k") == "switch"]
-            if len(sws) != 1:
-                raise Broken("%s::show is not one switch" % cls)
-            table = {}
-            for labels, stmts in switch_groups(sws[0]):
-                cs = [c for s in stmts for c in calls(s) if c.get("fn") == "show" and len(c["a"]) == 4]
-                for l in labels:
-                    if l == "default" or not cs:
-                        continue
-                    pfx, name = strval(cs[0]["a"][0]), strval(cs[0]["a"][1])
-                    table[intval(l)] = "%s_%s" % (pfx, name)
-            bad = 0
-            for v, name in sorted(table.items()):
-                got = [r for r in R.get(name, []) if r[1][0] == "elfsym_%s_dom" % fam]
-                key = "Z1e:%s:%s" % (cls.split("::")[-1], name)
-                if not got:
-                    findings.append({"key": key, "where": shows[0]["l"], "msg": "%s renders %d as `%s` but the vocabulary has no such word in the %s domain" % (cls, v, name, fam.upper()), "detail": None})
-                    bad += 1
-                elif got[0][0] != v or got[0][1][1] != (machine,):
-                    findings.append({"key": key, "where": got[0][2],
-                                     "msg": "`%s` renders value %d for machine %d but the word denotes value %d in the domain of machine %s" % (name, v, machine, got[0][0], got[0][1][1]), "detail": None})
-                    bad += 1
-            inst.append(("Z1e:%s:%s" % (fam, cls.split("::")[-1]), {"machine": machine, "constants": len(table), "mismatches": bad}))
-    # visibility
-    sh = [g for g in prog.funcs.values() if g.get("cls", "").endswith("elfsym_stv_dom_t") and g["n"] == "show"]
-    if len(sh) != 1:
-        raise Broken("elfsym_stv_dom_t::show not found")
-    sws = [x for x in walk(sh[0]["body"]) if x.get("k") == "switch"][0]
-    cnt = 0
-    for labels, stmts in switch_groups(sws):
-        cs = [c for s in stmts for c in calls(s) if c.get("fn") == "show" and len(c["a"]) == 4]
-        for l in labels:
-            if l == "default" or not cs:
+    sign = {c["n"]: ("enum", c["n"], c["v"]) for e in prog.enums.values() if e["q"] == "signedness" for c in e["consts"]}
+    brev = {c["n"]: ("enum", c["n"], c["v"]) for e in prog.enums.values() if e["q"] == "brevity" for c in e["consts"]}
+    if set(sign) < {"sign", "unsign"} or "full" not in brev:
+        raise Broken("enum signedness / brevity vanished")
+
+    def cstr(x):
+        if isinstance(x, (Ptr, Buf)):
+            p_ = x if isinstance(x, Ptr) else Ptr(x, 0)
+            cells, out, k = p_.cells(), "", p_.off
+            while k < len(cells) and cells[k] not in (0, None):
+                out += chr(cells[k] & 0xff)
+                k += 1
+            return out
+        return str(x)
+
+    def sprintf(ev, o, a):
+        fmt, args, out, k = cstr(a[1]), list(a[2:]), "", 0
+        for m in re.finditer(r"%(#?)([dxs])|%%|[^%]+", fmt):
+            t = m.group(0)
+            if t == "%%":
+                out += "%"
+            elif t.startswith("%") and m.group(2):
+                v = args[k] if k < len(args) else 0
+                k += 1
+                out += cstr(v) if m.group(2) == "s" else (("%#x" if m.group(1) else "%x") % int(v) if m.group(2) == "x" else "%d" % int(v))
+            else:
+                out += t
+        dst = a[0] if isinstance(a[0], Ptr) else Ptr(a[0], 0)
+        cells = dst.cells()
+        if dst.off + len(out) + 1 > len(cells):
+            raise OutOfBounds("sprintf writes %d bytes into a buffer of %d" % (len(out) + 1, len(cells) - dst.off))
+        for n_, ch in enumerate(out + "\0"):
+            cells[dst.off + n_] = ord(ch)
+        return len(out)
+    ev = CxxEvaluator({"sprintf": sprintf}, {}, prog=prog)
+
+    def cls_of(obj):
+        return getattr(obj, "_cls", None) or getattr(obj, "_t", None)
+
+    def render(obj, code):
+        f = ev._resolve_virtual(cls_of(obj), "show", 3)
+        if f is None:
+            raise Broken("%s has no show (value, stream, brevity)" % cls_of(obj))
+        m = Obj("mpz_class")
+        m.m_u, m.m_i, m.m_sign = code, code, sign["unsign"]
+        os_ = OStream()
+        ev.steps = 0
+        ev.call(f, obj, [m, os_, brev["full"]])
+        return "".join(str(x) for x in os_.out)
+    named = re.compile(r"^[A-Z]+_[A-Za-z0-9_]+$")
+    total = 0
+    try:
+        for fam in ("stt", "stb"):
+            sel = prog.func_opt("elfsym_%s_dom" % fam)
+            if sel is None or sel.get("body") is None:
+                raise Broken("anchor elfsym_%s_dom vanished" % fam)
+            # every e_machine number there is (EM_* are below 260) and whatever the vocabulary mentions: the machines with a domain of
+            # their own are those for which the selector hands out another class than for machine 0
+            machines = sorted({r[1][1][0] for rs in R.values() for r in rs if r[1][0] == "elfsym_%s_dom" % fam and r[1][1]} | set(range(0, 264)))
+            generic = None
+            generic_cls = None
+            for machine in machines:
+                obj = ev.call(sel, None, [machine])
+                if cls_of(obj) is None:
+                    raise Broken("elfsym_%s_dom (%d) does not hand out a domain object" % (fam, machine))
+                if machine == 0:
+                    generic_cls = cls_of(obj)
+                elif cls_of(obj) == generic_cls:
+                    continue
+                table = {code: render(obj, code) for code in range(16)}
+                if machine == 0:
+                    generic = table
+                own = {c: t for c, t in table.items() if named.match(t) and (machine == 0 or generic is None or generic.get(c) != t)}
+                bad = 0
+                for v, name in sorted(own.items()):
+                    got = [r for r in R.get(name, []) if r[1][0] == "elfsym_%s_dom" % fam]
+                    key = "Z1e:%s:%s" % (cls_of(obj).split("::")[-1], name)
+                    if not got:
+                        findings.append({"key": key, "where": "libzwerg/" + sel["l"], "msg": "%s renders %d as `%s` but the vocabulary has no such word in the %s domain" % (cls_of(obj), v, name, fam.upper()), "detail": None})
+                        bad += 1
+                    elif got[0][0] != v or got[0][1][1] != (machine,):
+                        findings.append({"key": key, "where": got[0][2],
+                                         "msg": "`%s` renders value %d for machine %d but the word denotes value %d in the domain of machine %s" % (name, v, machine, got[0][0], got[0][1][1]), "detail": None})
+                        bad += 1
+                total += len(own)
+                inst.append(("Z1e:%s:%s" % (fam, cls_of(obj).split("::")[-1]), {"machine": machine, "constants": len(own), "mismatches": bad}))
+        selv = prog.func_opt("elfsym_stv_dom")
+        if selv is None or selv.get("body") is None:
+            raise Broken("anchor elfsym_stv_dom vanished")
+        obj = ev.call(selv, None, [])
+        cnt = 0
+        for code in range(8):
+            name = render(obj, code)
+            if not named.match(name):
                 continue
-            name = "%s_%s" % (strval(cs[0]["a"][0]), strval(cs[0]["a"][1]))
             cnt += 1
             got = [r for r in R.get(name, []) if r[1][0] == "elfsym_stv_dom"]
-            if not got or got[0][0] != intval(l):
-                findings.append({"key": "Z1e:stv:" + name, "where": sh[0]["l"], "msg": "`%s` (%d) does not round-trip through the vocabulary" % (name, intval(l)), "detail": None})
-    inst.append(("Z1e:stv", {"constants": cnt}))
+            if not got or got[0][0] != code:
+                findings.append({"key": "Z1e:stv:" + name, "where": "libzwerg/" + selv["l"], "msg": "`%s` (%d) does not round-trip through the vocabulary" % (name, code), "detail": None})
+        inst.append(("Z1e:stv", {"constants": cnt}))
+        total += cnt
+    except (OutOfBounds, Thrown) as x:
+        raise Broken("the ELF constant domains cannot be evaluated: %s" % x)
+    if total < 20:
+        raise Broken("only %d named ELF symbol constants rendered (floor 20)" % total)
     return inst, findings
 
 
